@@ -299,9 +299,14 @@ def extract_item(spec, log):
     src = read(path)
     mask = code_mask(src)
     ms = find_code(src, mask, spec["item"])
-    if len(ms) != 1:
+    if "nth" in spec:
+        if len(ms) < spec["nth"] or len(ms) != spec.get("count", len(ms)):
+            raise Undecided("anchor lost: item /%s/ found %d times in %s" % (spec["item"], len(ms), spec["file"]))
+        m = ms[spec["nth"] - 1]
+    elif len(ms) != 1:
         raise Undecided("anchor lost: item /%s/ found %d times in %s" % (spec["item"], len(ms), spec["file"]))
-    m = ms[0]
+    else:
+        m = ms[0]
     if spec.get("until") == ";":
         end = src.find(';', m.end())
         text = src[m.start():end + 1]
